@@ -151,9 +151,7 @@ def validate(seed, tier):
             for tol in (0.0, 0.01, 0.2 / L):
                 inp = concrete.random_state_input(rng, 'mps', L, Dmax=4)
                 inp.update(mode=mode, tol=tol)
-                f = concrete.CHECKS['compress'](inp)
-                if f:
-                    raise runner.HarnessError(f'concrete compress check fails on the unchanged tree: {f}')
+                runner.concrete_check('compress', inp)
                 n += 1
     return dict(concrete_inputs_checked=n)
 
